@@ -589,18 +589,24 @@ class Engine
   PlausibleVersion(Box &b, uint32_t ver, uint64_t rel_lo, uint64_t b_hi, std::string &set)
   {
     bool ok = false;
+    bool lapped = false;
     if (b_hi - rel_lo > 64) return true;  // too wide to decide: not judged
     for (uint64_t j = rel_lo; j <= b_hi; ++j) {
       uint32_t pv = 0;
       if (j != 0) {
         const auto e = b.pub[j % kPubRing].load(kMo);
-        if ((e >> 32) != (j & 0xFFFFFFFFULL)) continue;  // not yet published (section still active)
+        if ((e >> 32) != (j & 0xFFFFFFFFULL)) {
+          // not yet published (section still active) - or the ring of published versions has been overwritten by a
+          // later section since (this thread was descheduled for more than kPubRing sections): not judged then
+          if ((e >> 32) > (j & 0xFFFFFFFFULL)) lapped = true;
+          continue;
+        }
         pv = static_cast<uint32_t>(e);
       }
       set += Fmt("%s#%" PRIu64 ":%u", set.empty() ? "" : ",", j, pv);
       if (pv == ver) ok = true;
     }
-    return ok;
+    return ok || lapped;
   }
 
   void
